@@ -230,6 +230,13 @@ def run(chk):
                     yield c, tr, m
             part._get_partial_matrices = recording
             sot = rng.random() < 0.3
+            if rng.random() < 0.25:
+                # an earlier analysis on the same object with the other reading of tones (everything else equal): the ids of the call
+                # that follows are those of ITS morphemes
+                chk.hist['partial_cluster called before on the same object with the other split_on_tones'] += 1
+                part.partial_cluster(method='sca', threshold=rng.choice([t, 0.45]), cluster_method=link, ref='pids0', post_processing=pp, mode='global',
+                                     split_on_tones=not sot)      # another column: writing a column twice asks the user
+                del mats[:]
             if sot:
                 # morphemes also end after a tone (words without a written border only): the documented option of partial_cluster
                 chk.hist['partial_cluster(split_on_tones=True)'] += 1
